@@ -32,6 +32,12 @@ func ctxFor(engine string, raw json.RawMessage) engineCtx {
 			bad(err)
 		}
 		return newPlainCtx(&wl)
+	case "mergesim":
+		var wl wlMerge
+		if err := json.Unmarshal(raw, &wl); err != nil {
+			bad(err)
+		}
+		return newMergeCtx(&wl)
 	}
 	fmt.Fprintln(os.Stderr, "worker: unknown engine", engine)
 	os.Exit(2)
@@ -53,6 +59,8 @@ func engineCandidates(engine string, raw json.RawMessage) []json.RawMessage {
 			out = append(out, b)
 		}
 		return out
+	case "mergesim":
+		return mergeCandidates(raw)
 	}
 	return nil
 }
@@ -68,6 +76,11 @@ func engineDescribe(engine string, raw json.RawMessage) string {
 		var wl wlPlain
 		if json.Unmarshal(raw, &wl) == nil && wl.Model != nil {
 			return wl.Model.describe()
+		}
+	case "mergesim":
+		var wl wlMerge
+		if json.Unmarshal(raw, &wl) == nil {
+			return wl.describe()
 		}
 	}
 	return ""
